@@ -1217,32 +1217,76 @@ def _add_contains_views(run, world, mod, c):
                 e.args) == 1:
             return e.args[0], ast.Constant(0)
         return None, None
+    # the three kinds of argument - True, False, anything else - decide the
+    # tests on `item` (identity with the singletons, type / isinstance bool,
+    # truthiness, equality); the paths that stay possible for a kind must
+    # all give that kind's answer
+    def decide(t, kind):
+        """Value of an atomic test for item of this kind, or None."""
+        def is_item(e):
+            return isinstance(e, ast.Name) and e.id == item
+
+        def const(e):
+            return isinstance(e, ast.Constant) and isinstance(e.value, bool)
+        if is_item(t):
+            return kind if kind is not None else None
+        if isinstance(t, ast.Compare) and len(t.ops) == 1:
+            l_, r_, op = t.left, t.comparators[0], t.ops[0]
+            if const(l_) and is_item(r_):
+                l_, r_ = r_, l_
+            if is_item(l_) and const(r_):
+                if isinstance(op, (ast.Is, ast.IsNot)):
+                    v = (kind is r_.value)
+                    return v if isinstance(op, ast.Is) else not v
+                if isinstance(op, (ast.Eq, ast.NotEq)) and kind is not None:
+                    v = (kind == r_.value)
+                    return v if isinstance(op, ast.Eq) else not v
+            tl, tr = unparse(l_), unparse(r_)
+            if {tl, tr} == {"type(%s)" % item, "bool"} and isinstance(
+                    op, (ast.Is, ast.IsNot, ast.Eq, ast.NotEq)):
+                v = kind is not None
+                return v if isinstance(op, (ast.Is, ast.Eq)) else not v
+        if isinstance(t, ast.Call) and unparse(t.func) == "isinstance" and \
+                len(t.args) == 2 and is_item(t.args[0]) and unparse(
+                    t.args[1]) == "bool":
+            return kind is not None
+        return None
+
+    class _SubItem(ast.NodeTransformer):
+        def __init__(self, k):
+            self.k = k
+
+        def visit_Name(self, n):
+            if n.id == item and self.k is not None:
+                return ast.copy_location(ast.Constant(self.k), n)
+            return n
     okc = True
     seen = set()
     for p_ in ps:
         if p_.kind != "return":
             raise AnalysisError("Frame.__contains__: a path without a "
                                 "result (%r)" % p_)
-        conds = {(unparse(t), b) for (t, b) in p_.conds}
-        is_true = ("%s is True" % item, True) in conds
-        is_false = ("%s is False" % item, True) in conds
-        e = p_.expr
-        if is_true:
-            seen.add(True)
-            x1, k1 = nonzero_test(e)
-            okc = okc and x1 is not None and _data_identity(lw, x1) and \
-                unparse(k1) == "0"
-        elif is_false:
-            seen.add(False)
-            x0, k0 = nonzero_test(e)
-            okc = okc and x0 is not None and _data_identity(lw, x0) and \
-                lw.alg.equal(lw.bv(k0), BV([Seg(Lin.const(0), BITS,
-                                                "ones")]))
-        else:
-            seen.add(None)
-            okc = okc and isinstance(e, ast.Constant) and e.value is False \
-                and ("%s is True" % item, False) in conds and \
-                ("%s is False" % item, False) in conds
+    from ..inline import acopy as _ac
+    for kind in (True, False, None):
+        live = [p_ for p_ in ps if all(
+            decide(t, kind) in (None, b) for (t, b) in p_.conds)]
+        if not live:
+            continue
+        seen.add(kind)
+        for p_ in live:
+            e = _SubItem(kind).visit(_ac(p_.expr))
+            if kind is True:
+                x1, k1 = nonzero_test(e)
+                okc = okc and x1 is not None and _data_identity(lw, x1) \
+                    and unparse(k1) == "0"
+            elif kind is False:
+                x0, k0 = nonzero_test(e)
+                okc = okc and x0 is not None and _data_identity(lw, x0) \
+                    and lw.alg.equal(lw.bv(k0), BV([Seg(Lin.const(0), BITS,
+                                                        "ones")]))
+            else:
+                okc = okc and isinstance(e, ast.Constant) and \
+                    e.value is False
     if seen != {True, False, None}:
         raise AnalysisError("Frame.__contains__: `item is True / is False / "
                             "otherwise` cases not found")
